@@ -38,9 +38,24 @@ def generate(seed, tier):
     n = rng.randint(10, 30 if tier == 'quick' else 60)
     kinds = [k for k in F.ALL if k != 'unknown_parent']
     ops = []
+    # bulk-download deliveries (in_response_to != 0) as CONTEXT: they are installed unvalidated and only buffered, so a
+    # rejected relay afterwards rolls the node back; what C09 says about relayed blocks has to hold around that too
+    bulk_rate = rng.choice([0.0, 0.0, 0.12, 0.3])
     for _ in range(n):
         x = rng.random()
         peer = rng.randrange(4)
+        if bulk_rate and rng.random() < bulk_rate:
+            y = rng.random()
+            if y < 0.6:
+                m = LC.gen_mine(rng, latest_bias=0.85, max_txs=2)
+                m.update({'op': 'bulk', 'peer': peer, 'clock': 0})
+                ops.append(m)
+            elif y < 0.8:
+                ops.append({'op': 'redeliver_dropped', 'n': rng.randrange(1000), 'peer': peer, 'route': rng.choice(['relay', 'bulk'])})
+            else:
+                ops.append({'op': 'forge', 'kind': rng.choice(APPLY_TIME + ['reward_plus_one', 'sig_other_key']), 'tip': -1,
+                            'a': rng.randrange(1000), 'b': rng.randrange(1000), 'dt': 1, 'clock': 0, 'peer': peer, 'overlap': False})
+            continue
         if x < 0.38:
             m = LC.gen_mine(rng, latest_bias=0.55, max_txs=3)
             m.update({'op': 'relay', 'peer': peer, 'overlap': rng.random() < 0.2,
@@ -98,6 +113,10 @@ def execute(script):
         rejected = set()                     # ids of candidates that must never appear
         delivered_valid = []                 # blocks accepted earlier (for duplicates)
         installs = []                        # ids in the order the node installed them
+        install_validated = {}               # id -> the 'validated' flag the node passed when installing it
+        unflushed = set()                    # installed unvalidated (bulk route) since the last validated install: only buffered
+        dropped = []                         # blocks the node dropped again by rolling back (may be delivered again)
+        cs_valid = {'cs': sim.cs}            # the shadow state as of the last moment nothing was unflushed
 
         def hook_installs():
             cm = w.cm
@@ -110,6 +129,10 @@ def execute(script):
                     for h in coinstate.heads.keys():
                         if h not in prev.block_by_hash:
                             installs.append(h)
+                            install_validated[h] = validated
+                elif len(coinstate.block_by_hash) < len(prev.block_by_hash):
+                    # the node falls back to an earlier state
+                    installs.append(('rollback', frozenset(set(prev.block_by_hash.keys()) - set(coinstate.block_by_hash.keys()))))
                 state['prev'] = coinstate
                 return orig(coinstate, validated)
             cm.set_coinstate = wrapped
@@ -118,7 +141,22 @@ def execute(script):
         mark = {'inst0': 0}
         batch = []      # candidates sent since the last settle: dict(block, bid, verdict..., )
 
-        def send_block(block, peer, label, expect):
+        def model_drop(ids, why):
+            nonlocal delivered_valid
+            for bid in sorted(ids, key=lambda b_: -chain.blocks[b_].height):
+                rb_ = chain.blocks.pop(bid)
+                chain.order.remove(bid)
+                if rb_.parent is not None:
+                    rb_.parent.children -= 1
+                accepted.discard(bid)
+                sim.stored.remove(bid)
+                dropped.append(sim.block_objs[bid])
+            delivered_valid = [b_ for b_ in delivered_valid if rules.block_id(b_) in accepted]
+            sim.cs = cs_valid['cs']
+            unflushed.clear()
+            res.bump(why)
+
+        def send_block(block, peer, label, expect, route='relay'):
             c = w.conn(peer)
             if c is None:
                 res.bump('no_connection_for_delivery')
@@ -132,11 +170,15 @@ def execute(script):
             t_send = w.node_clock()
             if not batch:
                 mark['inst0'] = len(installs)
-            batch.append({'block': block, 'bid': bid, 'label': label, 'expect': expect, 't_send': t_send,
+            batch.append({'block': block, 'bid': bid, 'label': label, 'expect': expect, 't_send': t_send, 'route': route,
+                          'known_at_send': bid in accepted,
                           'conn': c, 'parent_settled': block.header.summary.previous_block_hash in accepted,
                           'counts_before': {k: v[0] for k, v in w.count_block_messages(bid).items()},
                           'greeted_before': [id(x) for x in w.greeted_bot_conns()]})
-            c.send(M.DataMessage(M.DATA_BLOCK, block))
+            if route == 'bulk':
+                c.send(M.DataMessage(M.DATA_BLOCK, block), in_response_to=9)
+            else:
+                c.send(M.DataMessage(M.DATA_BLOCK, block))
             w.trace.add(w.k.now, 'send', label, bid)
 
         def evidence_tool(block):
@@ -161,7 +203,17 @@ def execute(script):
             new_installs = installs[n_inst0:]
             any_accept = False
             # the node's own processing order decides arrival order for the reference
+            rolled_back = False
             for bid in new_installs:
+                if isinstance(bid, tuple):
+                    # a rejected relay made the node fall back to its last validated state: the blocks installed unvalidated
+                    # since then are gone again - by design of the bulk-download path (anything else that went missing with
+                    # them is reported by the membership comparison below)
+                    drop = set(unflushed) & bid[1]
+                    if drop:
+                        model_drop(drop, 'probe:rollback_to_last_validated_state')
+                        rolled_back = True
+                    continue
                 cand = by_id.get(bid)
                 if cand is None:
                     res.violate(PROP, 'C09/unknown-block-in-state', 'node installed a block nobody delivered: %s' % bid.hex()[:12])
@@ -184,6 +236,11 @@ def execute(script):
                     cand['became_head'] = chain.head().id == bid
                     cand['installed'] = True
                     any_accept = True
+                    if cand.get('route') == 'bulk' and not install_validated.get(bid, True):
+                        unflushed.add(bid)
+                        res.bump('probe:bulk_block_installed_unvalidated')
+                        continue
+                    unflushed.clear()              # a validated install flushes everything buffered
                     res.bump('accepted_relays')
                     if cand['became_head']:
                         res.bump('probe:relay_became_head')
@@ -195,8 +252,13 @@ def execute(script):
                 blk = cand['block']
                 if cand.get('installed'):
                     continue
-                if bid in accepted:
+                if bid in accepted or cand.get('known_at_send'):
+                    # a repeat; (if a rollback in this batch dropped the block, whether the repeat was handled before or
+                    # after it decides if the block is back - both orders are legitimate)
                     cand['repeat'] = True
+                    if bid not in accepted and bid in node_ids:
+                        res.violate(PROP, 'C09/invalid-block-entered-state', 'block in state without an install: %s' % cand['label'])
+                        return False
                     continue
                 early = judge_block(chain, blk, cand['t_send'], evidence_tool, consensus.calc_merkle_root_hash, sim.sig_cache)
                 if bid in node_ids:
@@ -205,14 +267,17 @@ def execute(script):
                 conn_lost = cand['conn'] is None or cand['conn'].closed
                 if conn_lost:
                     res.bump('probe:delivery_lost_with_its_connection')
-                if not early and cand['parent_settled'] and cand['expect'] != 'forgery' and not conn_lost:
+                if not early and cand['parent_settled'] and cand['expect'] not in ('forgery', 'context') and not conn_lost \
+                        and blk.header.summary.previous_block_hash in accepted:
                     res.violate(PROP, 'C09/valid-block-not-accepted',
                                 'a valid block on a known parent, delivered outside bulk download, is not in chain state (%s)' % cand['label'])
                     return False
                 if early:
                     rejected.add(bid)      # only what the rules forbid must never show up later
+                    cand['rejected_now'] = True
                 res.bump('rejected_relays')
-            # (1b) membership
+            # (1b) membership.  A rejected relay may make the node fall back to its last validated state: the blocks installed
+            #      unvalidated since then (all of them, nothing else) are gone again - by design of the bulk-download path
             if node_ids != accepted:
                 extra = node_ids - accepted
                 missing = accepted - node_ids
@@ -227,7 +292,7 @@ def execute(script):
             if rows & rejected:
                 res.violate(PROP, 'C09/rejected-block-in-store', 'a rejected block was written to the block store')
                 return False
-            if rows != accepted:
+            if not (accepted - unflushed <= rows <= accepted):
                 res.violate(PROP, 'C09/store-differs-from-accepted',
                             'store has %d rows, %d blocks accepted so far (missing %d, extra %d)' % (
                                 len(rows), len(accepted), len(accepted - rows), len(rows - accepted)))
@@ -240,7 +305,7 @@ def execute(script):
                     if id(c) not in cand['greeted_before'] or c.closed:
                         continue
                     delta = n - cand['counts_before'].get(key, 0)
-                    want = 1 if (cand.get('installed') and cand.get('became_head')) else 0
+                    want = 1 if (cand.get('installed') and cand.get('became_head') and cand.get('route') != 'bulk') else 0
                     others = [x for x in batch if x is not cand and x['bid'] == bid]
                     if others:
                         continue    # same block twice in one batch: judged on the total below
@@ -253,7 +318,7 @@ def execute(script):
                 same = [c for c in batch if c['bid'] == bid]
                 if len(same) > 1:
                     after = w.count_block_messages(bid)
-                    want = 1 if any(c.get('installed') and c.get('became_head') for c in same) else 0
+                    want = 1 if any(c.get('installed') and c.get('became_head') and c.get('route') != 'bulk' for c in same) else 0
                     for key, (n, c) in after.items():
                         if id(c) not in same[0]['greeted_before'] or c.closed:
                             continue
@@ -263,11 +328,13 @@ def execute(script):
                                 len(same), delta, want))
                             return False
             # (4) rejections leave pool and state as they were
-            if not any_accept and pool_before is not None:
+            if not any_accept and pool_before is not None and not rolled_back:
                 if w.pool_ids() != pool_before:
                     res.violate(PROP, 'C09/pool-changed-by-rejected-block', 'pending pool changed although every delivery was rejected')
                     return False
             batch = []
+            if not unflushed:
+                cs_valid['cs'] = sim.cs
             return True
 
         for op in script['ops']:
@@ -362,6 +429,36 @@ def execute(script):
                 batch[-1]['pool_before'] = w.pool_ids()
                 if not settle_and_check():
                     break
+            elif kind == 'bulk':
+                if not settle_and_check():
+                    break
+                rb = sim.parent_of(op.get('tip', -1))
+                txs, fees, _ = sim.build_txs(rb, op.get('txs', []))
+                ts = rb.ts + max(1, op.get('dt', 60))
+                if ts > w.node_clock() + 20:
+                    ts = rb.ts + 1
+                    if ts > w.node_clock() + 20:
+                        continue
+                blk = W.roundtrip(W.mine_honest(W.view_at(sim.cs, rb.id), txs, W.key(op.get('miner', 0) % 12), ts))
+                if rules.block_id(blk) in accepted:
+                    continue
+                send_block(blk, op.get('peer', 0), 'bulk-download', 'context', route='bulk')
+                res.bump('bulk_deliveries')
+                if not settle_and_check():
+                    break
+            elif kind == 'redeliver_dropped':
+                if not settle_and_check():
+                    break
+                cands = [b_ for b_ in dropped if b_.header.summary.previous_block_hash in accepted and rules.block_id(b_) not in accepted]
+                if not cands:
+                    continue
+                blk = cands[op.get('n', 0) % len(cands)]
+                route = op.get('route', 'relay')
+                send_block(blk, op.get('peer', 0), 'again-after-rollback:' + route, 'honest' if route == 'relay' else 'context', route=route)
+                batch[-1]['pool_before'] = None
+                res.bump('probe:dropped_block_delivered_again')
+                if not settle_and_check():
+                    break
             elif kind == 'dup':
                 if not delivered_valid:
                     continue
@@ -427,6 +524,8 @@ def execute(script):
                 if shared:
                     res.bump('restart_skipped_shared_transaction')
                     continue
+                if unflushed:
+                    model_drop(set(unflushed), 'probe:restart_lost_buffered_bulk_blocks')
                 node.crash()
                 res.bump('fault:restart')
                 bs.DefaultBlockStore.instance = bs.BlockStore(w.store_file)
@@ -469,7 +568,8 @@ def describe():
                                 'consensus / coinstate (full validation of relayed blocks)', 'scripts.utils.read_chain_from_disk on restart'],
                        'stub': ['TCP, selector, clock, randomness, logging (seams/net.py)', 'peers are scripted Bots', 'scrypt stand-in',
                                 'hollow base (hreal) or genesis + trusted easy block 1 (hlow_easy)']},
-        'assumptions': ['bulk-download deliveries (in_response_to != 0) are outside this property and not generated',
+        'assumptions': ['bulk-download deliveries (in_response_to != 0) are generated as context only: whether they are installed is not judged; '
+                        'the node may drop all blocks installed unvalidated since its last validated install when it rejects a relay',
                         'a block whose timestamp is within the settle window of clock+30 carries no expectation'],
         'expected_probes': ['accepted_relays', 'rejected_relays', 'probe:relay_became_head', 'probe:relay_on_side_chain',
                             'probe:orphan_dropped', 'probe:duplicate_delivery', 'probe:pool_non_empty', 'fault:restart'],
